@@ -228,7 +228,12 @@ def _run_seg(ctx, a):
     if a['src'] is None:
         return ops.run_mm_fit(ctx, base, iterations=a['iterations'])
     m = ctx.model(a['src'])
-    return ops.run_mm_fit(ctx, base, initialization=m.value,
+    init = m.value
+    if a.get('copy_model'):
+        # continue from an equal copy: the result depends on the model's
+        # value, not on the identity of the object the last fit returned
+        init = ops.copy_cacgmm(init)
+    return ops.run_mm_fit(ctx, base, initialization=init,
                           iterations=a['iterations'])
 
 
@@ -441,15 +446,27 @@ def run_op(world, idx, op):
         finish()
         return
 
-    # ---- O2 reproducible (same world, RNG restored)
+    # ---- O2 reproducible (same world, RNG restored); every other operation
+    # is repeated under np.errstate(all='ignore'): values must not depend on
+    # the caller's error state (unless that state is 'raise', where a warning
+    # legitimately becomes an exception)
     seams.rng_set(rng0)
     ctx2 = Ctx(world)
-    out2 = call(name, ctx2, a, None)
+    other_errstate = (idx % 2 == 0
+                      and 'raise' not in np.geterr().values())
+    if other_errstate:
+        with np.errstate(all='ignore'):
+            out2 = call(name, ctx2, a, None)
+        world.count('o2_repeats_under_other_errstate')
+    else:
+        out2 = call(name, ctx2, a, None)
     rng2 = seams.rng_get()
     if out2.cls() != out.cls():
         _viol(world, 'O2', idx, name, a,
               f'repeating the call gives {out2.cls()} instead of {out.cls()}'
-              + (f' ({out2.exc})' if out2.exc else ''))
+              + (f' ({out2.exc})' if out2.exc else '')
+              + (' [repeat under np.errstate(all="ignore")]'
+                 if other_errstate else ''))
     elif out.kind == 'ok':
         d = dg.first_difference(out.value, out2.value, 'result')
         if d:
@@ -505,6 +522,50 @@ def run_op(world, idx, op):
                   mutated=bool(mutated))
     elif out3.kind == 'skipped':
         pass
+
+    # ---- O2b result ownership: what a call returns belongs to the caller.
+    # Every third operation: obtain a result, overwrite its (writable) arrays,
+    # call again -- the new result must be the original one.  A library that
+    # hands out its own cached arrays fails this.
+    cheap = name in ops.ENTRIES and ops.ENTRIES[name].group in (
+        'mask', 'beamformer', 'alignment', 'metric', 'initializer', 'mmutils')
+    if (cheap or idx % 3 == 1) and out.kind == 'ok' and not world.violations:
+        seams.rng_set(rng0)
+        out_s = call(name, Ctx(world), a, None)
+        if out_s.kind == 'ok':
+            scribbled = 0
+            # memory the caller already owns (models returned earlier, the
+            # first result of this very call) may legitimately be aliased by
+            # a result (to_dict(), views): never write there
+            owned = [x for pool in (world.models, world.rmodels)
+                     for pm in pool.values()
+                     for x in dg.arrays_in(pm.value).values()]
+            owned += list(dg.arrays_in(out.value).values())
+            owned += list(dg.arrays_in(out2.value).values()) if out2.kind == 'ok' else []
+            owned += list(dg.arrays_in(out3.value).values()) if out3.kind == 'ok' else []
+            for arr in dg.arrays_in(out_s.value).values():
+                if any(np.may_share_memory(arr, o) for o in owned):
+                    continue
+                if arr.flags.writeable and arr.size:
+                    try:
+                        arr[...] = -7 if arr.dtype.kind in 'iufc' else False
+                        scribbled += 1
+                    except (ValueError, TypeError):
+                        pass
+            if scribbled:
+                md_mid = world.changed_inputs(md_before)
+                seams.rng_set(rng0)
+                out_t = call(name, Ctx(world), a, None)
+                world.count('result_ownership_checks')
+                if md_mid:
+                    raise RuntimeError('harness: scribbling changed caller-'
+                                       f'visible arrays {md_mid[:3]}')
+                elif out_t.kind == 'ok' and dg.digest(out_t.value) != dg.digest(out.value):
+                    _viol(world, 'O2', idx, name, a,
+                          'after the caller wrote into the arrays of an '
+                          'earlier result, the same call returns something '
+                          'else: results share memory with library-internal '
+                          'state')
 
     # ---- O4 split == whole (cACGMM jobs)
     if name == 'cacgmm.seg' and out.kind == 'ok' and not world.violations:
@@ -754,7 +815,9 @@ def generate(run_seed, tier='quick'):
                 src = job['done'][-1][0] if job['done'] else None
                 cum = (job['done'][-1][1] if job['done'] else 0) + m
                 ok = push('cacgmm.seg', {'base': job['base'], 'src': src,
-                                         'iterations': m, 'cum': cum})
+                                         'iterations': m, 'cum': cum,
+                                         'copy_model': bool(src is not None
+                                                            and g.coin(0.3))})
                 if program_ops[-1]['fault'] is not None:
                     # a crashed segment: it is retried
                     pass
